@@ -245,20 +245,54 @@ def rule_tables(report, prog):
 
 def rule_passthrough(report, prog):
     f = prog.func('nfc.clf.ContactlessFrontend._llcp_connect')
-    t = [try_const(s.value) for s in assigned_value(f, 'dep_cfg') if isinstance(s.value, ast.Tuple)]
-    report.check(t == [('brs', 'acm', 'rwt', 'lrt', 'lri')], 'C19-R3', key(f.qname, 'forwards brs, acm, rwt, lrt, lri'), f.loc(),
-                 'NFC-DEP options forwarded by connect(): %r' % t)
-    okk = bool(find(f.node, 'dep_cfg = {k: options[k] for k in dep_cfg if k in options}')) and \
-        bool(find(f.node, 'llc.activate(mac=DEP(clf=self), **dep_cfg)'))
+    # the keyword dictionary handed to llc.activate, folded for sample option dictionaries: the assignments of the function are
+    # evaluated in source order (checker's own evaluator), then the ** argument of the activate call
+    act = [c for c in ast.walk(f.node) if isinstance(c, ast.Call) and norm(c.func) == 'llc.activate']
+    kw = [k.value for c in act for k in c.keywords if k.arg is None]
+    mac = [norm(k.value) for c in act for k in c.keywords if k.arg == 'mac']
+
+    def forwarded(options):
+        env = {'options': dict(options)}
+
+        def walk(stmts):
+            for st in stmts:
+                if isinstance(st, ast.Assign) and len(st.targets) == 1 and isinstance(st.targets[0], ast.Name):
+                    try:
+                        env[st.targets[0].id] = const(st.value, env)
+                    except Exception:
+                        env.pop(st.targets[0].id, None)
+                for fld in ('body', 'orelse'):
+                    if isinstance(getattr(st, fld, None), list) and not isinstance(st, (ast.FunctionDef, ast.ClassDef)):
+                        walk(getattr(st, fld))
+        walk(f.node.body)
+        try:
+            return const(kw[0], env) if len(kw) == 1 else None
+        except Exception:
+            return None
+    dep = {'brs': 2, 'acm': False, 'rwt': 9, 'lrt': 4, 'lri': 1}
+    other = {'role': None, 'lto': 500, 'miu': 128, 'on-connect': 0, 'on-release': 0, 'llc': 0, 'pni': 3, 'did': 7}
+    t = forwarded(dict(dep, **other))
+    report.check(t == dep, 'C19-R3', key(f.qname, 'forwards brs, acm, rwt, lrt, lri'), f.loc(),
+                 'NFC-DEP options forwarded by connect(): %r' % (sorted(t) if isinstance(t, dict) else t))
+    part = forwarded(dict(other, rwt=11, lri=2))
+    okk = part == {'rwt': 11, 'lri': 2} and forwarded(other) == {} and len(act) == 1 and mac == ['DEP(clf=self)']
     report.check(okk, 'C19-R3', key(f.qname, 'options reach mac.activate unchanged'), f.loc(), 'option forwarding changed')
     g = prog.func(LLC + '.activate')
     okk = bool(find(g.node, 'gb = mac.activate(gbi=gb, **options)')) and bool(find(g.node, 'gb = mac.activate(gbt=gb, **options)'))
     report.check(okk, 'C19-R3', key(g.qname, 'options passed on to the MAC activation'), g.loc(), 'llc.activate no longer forwards options')
     # role dispatch: the eval() builds nfc.dep.Target / nfc.dep.Initiator from the literal tuple next to it
     roles = [try_const(x.iter) for x in walk_no_nested(f.node) if isinstance(x, ast.For)]
-    ev = [c for c in ast.walk(f.node) if isinstance(c, ast.Call) and norm(c.func) == 'eval']
-    okk = roles == [('target', 'initiator')] and len(ev) == 1 and norm(ev[0].args[0]) == "'nfc.dep.' + role.capitalize()" \
-        and all(('nfc.dep.' + r.capitalize()) in prog.classes for r in ('target', 'initiator'))
+    # DEP = eval('nfc.dep.' + role.capitalize())  or  getattr(nfc.dep, role.capitalize()): folded for each role of the tuple
+    dv = [s_.value for s_ in assigned_value(f, 'DEP')]
+    names = []
+    if len(dv) == 1 and isinstance(dv[0], ast.Call) and roles == [('target', 'initiator')]:
+        for r in roles[0]:
+            c_ = dv[0]
+            if norm(c_.func) == 'eval' and len(c_.args) == 1:
+                names.append(try_const(c_.args[0], {'role': r}))
+            elif norm(c_.func) == 'getattr' and len(c_.args) == 2 and norm(c_.args[0]) == 'nfc.dep':
+                names.append('nfc.dep.%s' % try_const(c_.args[1], {'role': r}))
+    okk = names == ['nfc.dep.Target', 'nfc.dep.Initiator'] and all(n_ in prog.classes for n_ in names)
     report.check(okk, 'C19-R3', key(f.qname, 'role names resolve to nfc.dep.Target / nfc.dep.Initiator'), f.loc(),
                  'role dispatch changed')
 
